@@ -76,11 +76,12 @@ if [ "$n" = "$ZV_GIT_FAIL_AT" ] || [ "$ZV_GIT_FAIL_AT" = "all" ]; then
     empty) exit 0;;
     signal) kill -9 $$;;
     noisy) echo "warning: something odd" >&2; printf 'zzz\nyyy\n'; exit 3;;
+    silent1) exit 1;;
   esac
 fi
 exec "$ZV_REAL_GIT" "$@"
 '''
-MODES = ["exit1", "exit128", "nohead", "garbage", "empty", "signal", "noisy"]
+MODES = ["exit1", "exit128", "nohead", "garbage", "empty", "signal", "noisy", "silent1"]
 
 
 def make_stub(dirpath):
@@ -115,6 +116,8 @@ def standard_repos(root):
         "multi_tags": [("commit", T), ("tag", "v1.0.0"), ("tag", "v1.0.1"), ("tag", "v1.0.0-rc.1"), ("tag", "junk"), ("commit", T + 1)],
         "merge": [("commit", T), ("tag", "v1.0.0"), ("branch", "dev"), ("commit", T + 10), ("tag", "v1.1.0"), ("checkout", "main"), ("commit", T + 20), ("merge", "dev", T + 30)],
         "release_branch": [("commit", T), ("tag", "v1.0.0"), ("branch", "release/7"), ("commit", T + 10), ("dirty", "staged")],
+        # several spellings of one precedence on the same commit (SemVer ignores build metadata): the choice among them must be stable
+        "equal_tags": [("commit", T), ("tag", "v1.2.3"), ("tag", "v1.2.3+build.1"), ("tag", "v1.2.3+linux"), ("tag", "1.2.3"), ("atag", "v1.2.3+z", T + 3), ("commit", T + 7)],
     }
     out = {}
     for name, script in specs.items():
